@@ -138,6 +138,105 @@ theorem retry_budget (pos : Nat) (m : Int) (hm : 0 ≤ m) (rl : Bool) (h a : Lis
           · simp only [hfl, Option.some.injEq, Prod.mk.injEq] at hh
             obtain ⟨_, rfl⟩ := hh; exact hb1
 
+theorem retryOnFailure_inv (pos : Nat) (m : Int) (rl : Bool) (a : List Cond) (res : PR) (r : Run) :
+    (retryOnFailure pos m rl a res r).2.inv = r.inv := by
+  unfold retryOnFailure
+  simp only
+  split <;> (repeat' split) <;> rfl
+
+/-- **at most `maxRetries + 1` invocations**: with `maxRetries = m ≥ 0` and an inner layer that invokes the function at most once
+per call (the function itself, or any stack of policies that do not re-invoke), an execution through the retry layer invokes
+the function at most `m + 1 - (failures counted so far)` more times — `m + 1` times for a fresh execution -/
+theorem retry_invocations_bounded (pos : Nat) (m : Int) (hm : 0 ≤ m) (rl : Bool) (h a : List Cond) (inner : Layer)
+    (hin : ∀ r res r1, inner r = some (res, r1) →
+      failedAt pos r1 = failedAt pos r ∧ excAt pos r1 = excAt pos r ∧ r1.inv ≤ r.inv + 1) :
+    ∀ fuel r res r', retryLoop pos m rl h a inner fuel r = some (res, r') → (failedAt pos r : Int) ≤ m →
+      (r'.inv : Int) ≤ r.inv + (m + 1 - failedAt pos r) := by
+  intro fuel
+  induction fuel with
+  | zero => intro r res r' hh; simp [retryLoop] at hh
+  | succ n ih =>
+    intro r res r' hh hb
+    simp only [retryLoop] at hh
+    cases hi : inner r with
+    | none => simp [hi] at hh
+    | some x =>
+      obtain ⟨res1, r1⟩ := x
+      obtain ⟨hf1, he1, hi1⟩ := hin r res1 r1 hi
+      simp only [hi] at hh
+      by_cases hc : r1.isCanc = true
+      · simp only [hc, if_true, Option.some.injEq, Prod.mk.injEq] at hh
+        obtain ⟨_, rfl⟩ := hh; omega
+      · simp only [hc] at hh
+        by_cases he : r1.exceeded.contains pos = true
+        · simp only [he, if_true, Option.some.injEq, Prod.mk.injEq] at hh
+          obtain ⟨_, rfl⟩ := hh; omega
+        · simp only [he] at hh
+          by_cases hfl : isFailure h res1.outcome = true
+          · simp only [hfl, if_true] at hh
+            have hcount := retryOnFailure_failed pos m rl a res1.withFailure r1
+            have hinv := retryOnFailure_inv pos m rl a res1.withFailure r1
+            by_cases hd : (retryOnFailure pos m rl a res1.withFailure r1).1.done = true
+            · simp only [hd, if_true, Option.some.injEq, Prod.mk.injEq] at hh
+              obtain ⟨_, rfl⟩ := hh; rw [hinv]; omega
+            · simp only [hd] at hh
+              have hnd := (retryOnFailure_not_done pos m rl a res1.withFailure r1 (by simpa using hd)).1
+              generalize hX : (({ (retryOnFailure pos m rl a res1.withFailure r1).2 with
+                  last := (retryOnFailure pos m rl a res1.withFailure r1).1.outcome }).emit "rp.onRetryScheduled" pos).trigger "rp.onRetryScheduled" = X at hh
+              have hXf : failedAt pos X = failedAt pos r1 + 1 := by
+                rw [← hX]; simp only [failedAt_trigger, failedAt_emit, failedAt_last]; exact hcount
+              have hXi : X.inv = r1.inv := by
+                rw [← hX]; simp only [Run.trigger_inv]; exact hinv
+              by_cases hx : X.isCanc = true
+              · simp only [hx, if_true, Option.some.injEq, Prod.mk.injEq] at hh
+                obtain ⟨_, rfl⟩ := hh; rw [hXi]; omega
+              · simp only [hx] at hh
+                have hle : ((failedAt pos r1 + 1 : Nat) : Int) ≤ m := by
+                  by_cases hm1 : m = -1
+                  · omega
+                  · have := fun hgt => hnd ⟨hm1, hgt⟩; omega
+                have := ih _ res r' hh (by
+                  show (failedAt pos ((({ X with attempts := X.attempts + 1, retries := X.retries + 1 } : Run)).emit "rp.onRetry" pos) : Int) ≤ m
+                  simp only [failedAt_emit]
+                  have : failedAt pos ({ X with attempts := X.attempts + 1, retries := X.retries + 1 } : Run) = failedAt pos X := rfl
+                  rw [this, hXf]; exact hle)
+                have e1 : failedAt pos ((({ X with attempts := X.attempts + 1, retries := X.retries + 1 } : Run)).emit "rp.onRetry" pos) = failedAt pos r1 + 1 := by
+                  simp only [failedAt_emit]
+                  have : failedAt pos ({ X with attempts := X.attempts + 1, retries := X.retries + 1 } : Run) = failedAt pos X := rfl
+                  rw [this, hXf]
+                have e2 : ((({ X with attempts := X.attempts + 1, retries := X.retries + 1 } : Run)).emit "rp.onRetry" pos).inv = r1.inv := by
+                  show X.inv = r1.inv; exact hXi
+                rw [e1, e2] at this
+                push_cast at this
+                omega
+          · simp only [hfl, Option.some.injEq, Prod.mk.injEq] at hh
+            obtain ⟨_, rfl⟩ := hh
+            show ((r1.emit "rp.onSuccess" pos).inv : Int) ≤ _
+            have : (r1.emit "rp.onSuccess" pos).inv = r1.inv := rfl
+            rw [this]; omega
+
+/-- the wrapped function is invoked at most once per call of the innermost layer, and the call leaves every retry executor's
+state alone -/
+theorem base_step (pos : Nat) (r r1 : Run) (res : PR) (h : base r = some (res, r1)) :
+    failedAt pos r1 = failedAt pos r ∧ excAt pos r1 = excAt pos r ∧ r1.inv ≤ r.inv + 1 := by
+  unfold base at h
+  simp only at h
+  split at h
+  · cases h; refine ⟨?_, ?_, ?_⟩ <;> simp [failedAt, getFailed, excAt, Run.emitSeen]
+  · (repeat' (split at h)) <;> first | (cases h; done) | (cases h; refine ⟨?_, ?_, ?_⟩ <;> simp [failedAt, getFailed, excAt, Run.emitSeen, Run.emit])
+
+/-- **at most `maxRetries + 1` invocations when it is the only policy**: a fresh execution of the stack `[retry m …]` around the
+function, for every script of outcomes (instant, blocking or sleeping), every handle / abort configuration and whatever
+cancellation is scripted, invokes the function at most `m + 1` times -/
+theorem retry_only_policy_invocations (m : Int) (hm : 0 ≤ m) (rl : Bool) (h a : List Cond) (fuel : Nat)
+    (w : World) (sc : List Item) (ck : Option String) (res : PR) (r' : Run)
+    (hx : executeStack fuel 0 [.retry m rl h a] { w := w, script := sc, ctxKey := ck } = some (res, r')) :
+    (r'.inv : Int) ≤ m + 1 := by
+  have := retry_invocations_bounded 0 m hm rl h a base (fun r res r1 hb => base_step 0 r r1 res hb) fuel
+    { w := w, script := sc, ctxKey := ck } res r' (by simpa [executeStack, applyPolicy] using hx)
+    (by simp [failedAt, getFailed]; omega)
+  simpa [failedAt, getFailed] using this
+
 /-- a fresh execution satisfies the invariant: every execution starts with an empty executor state -/
 theorem budget_fresh (pos : Nat) (m : Int) (hm : 0 ≤ m) (w : World) (sc : List Item) (ck : Option String) :
     Budget pos m { w := w, script := sc, ctxKey := ck } := by
@@ -202,5 +301,9 @@ theorem retry_budget_per_execution (w : World) (sc : List Item) (ck : Option Str
   ⟨rfl, rfl⟩
 
 example : Budget 0 2 { w := {}, script := [] } := budget_fresh 0 2 (by decide) {} [] none
+
+/-- non-vacuity of `retry_invocations_bounded`: a terminating retry loop around a layer that invokes once per call -/
+example : (retryLoop 0 1 false [] [] (fun r => some (⟨0, none, true, true, true⟩, { r with inv := r.inv + 1 })) 1
+    { w := {}, script := [] }).isSome = true := by decide
 
 end Failsafe.Props.C02
